@@ -338,6 +338,7 @@ def coreE : Expr → Bool
   | .intLit _ | .floatLit _ | .boolLit | .strLit | .unitLit | .var _ | .const _ | .none => true
   | .neg e | .not e | .some e | .try e | .field e _ | .assign _ _ _ e => coreE e
   | .cassign op _ _ _ e => op != .div && coreE e
+  | .mcall e _ args => coreE e && coreL args
   | .listLit es => coreL es
   | .ctor _ _ args => coreL args
   | .record _ fs => coreF fs
